@@ -176,6 +176,22 @@ def run(rep, br, proofs, rng, tier):
                 m = mk_case("%s.u%d" % (c["id"], len(mcases)), "unpack", lines, smp[0]); m["expect"] = "(%s %s)" % (smp[1], smp[2]); m["parent"] = c
                 mcases.append(m)
     if tier == "quick": mcases = mcases[::7]
+    # model tie: the nearest-lower lookup on the real source map of every compiled function
+    seen_maps = set()
+    for c in cases:
+        out = impl.get(c["id"]) or ""
+        if not out.startswith("(traced"): continue
+        sx = vlib.parse_sexp(out)
+        if len(sx) < 5: continue
+        for sm in sx[4][1:]:
+            key = str(sm)
+            if key in seen_maps: continue
+            seen_maps.add(key)
+            if tier == "quick" and len(seen_maps) > 1500: break
+            m = mk_case("%s.s%d" % (c["id"], len(mcases)), "sourcepos", sm[0], ["ips"] + [q[0] for q in sm[1][1:]])
+            m["expect"] = "(" + " ".join(q[1] for q in sm[1][1:]) + ")"; m["parent"] = c; m["sourcepos"] = True
+            m["nqueries"] = len(sm[1]) - 1
+            mcases.append(m)
     # model tie: histories of AddLine calls (own random stream: the layouts above keep theirs)
     import random as _random
     arng = _random.Random(160016)
@@ -223,7 +239,7 @@ def run(rep, br, proofs, rng, tier):
         "evaluations": len(cases) + len(mcases), "distinct_nontrivial": ok,
         "rule": "generated one-statement-per-line layouts (random blank lines, line comments, block comments before, after and across statements, filler declarations, literal constants as operands of the failing operator) in which an error (failing operator, failing builtin, failing functions of the time and strings modules (plain Go errors), bad index, call of a non-callable, wrong argument count, thrown value) escapes from call depth 0,1,2,3,5,8, in the main file, inside a function of an imported source module or while a module body runs during its import (made at top level or inside a function), optionally through 1-3 recursive activations of one call site, x optimizer on/off x encode/decode x k prepended blank lines; expected lines computed by the generator; positions must lie inside the named file; real line tables and sampled offsets re-resolved by the Coq unpack; non-trivial = a trace was produced and matched",
         "samples": [cases[0]["src"], str(cases[0]["expected"])],
-        "traces_matched": ok, "unpack_compared": len([m for m in mcases if not m.get("fileof") and not m.get("addlines")]), "file_lookups_compared": len([m for m in mcases if m.get("fileof")]), "addline_histories_compared": len([m for m in mcases if m.get("addlines")]), "disagreements": len(dis), "oracle_failures": len(fails)})
+        "traces_matched": ok, "unpack_compared": len([m for m in mcases if not m.get("fileof") and not m.get("addlines") and not m.get("sourcepos")]), "file_lookups_compared": len([m for m in mcases if m.get("fileof")]), "source_maps_compared": len([m for m in mcases if m.get("sourcepos")]), "source_map_lookups_compared": sum(m.get("nqueries", 0) for m in mcases if m.get("sourcepos")), "addline_histories_compared": len([m for m in mcases if m.get("addlines")]), "disagreements": len(dis), "oracle_failures": len(fails)})
 
 def replay(payload, br):
     print(payload.get("why")); print(payload.get("script") or "")
